@@ -39,6 +39,8 @@ def var_bounds(kinds, tight=False):
             lb.append(-1.0e6); ub.append(2.0e6)
         elif k == "bigupper":
             lb.append(NINF); ub.append(1.0e6)
+        elif k == "intbox":      # integral bounds; a spec with only such variables hands INTEGER-typed bound arrays to Problem.__init__
+            lb.append(-1.0 if j % 2 == 0 else -3.0); ub.append(3.0 if j % 2 == 0 else 2.0)
         else:
             raise ValueError(k)
     return lb, ub
@@ -165,7 +167,7 @@ def mk(n, obj, rows, var_kinds, x0_idx=2, tight=True, fmt="coo", policy="fresh",
         logbar_objective(n, lb, ub) if obj == "logbar" else obj)
     rs = [row(fn, kind, n, idx=i) for i, (fn, kind) in enumerate(rows)]
     x0 = project(LATTICE[x0_idx][:n], lb, ub)
-    return {"n": n, "obj": o, "rows": rs, "var_lb": lb, "var_ub": ub, "x0": x0,
+    return {"n": n, "obj": o, "rows": rs, "var_lb": lb, "var_ub": ub, "x0": x0, "intbounds": all(k == "intbox" for k in var_kinds),
             "y0": y0 if y0 is not None else [0.0] * len(rs), "fmt": fmt, "policy": policy, "idtype": idtype,
             "tag": f"n{n}|{obj if isinstance(obj, str) else 'custom'}|{','.join(f + ':' + k for f, k in rows)}|{','.join(var_kinds)}|s{x0_idx}"}
 
